@@ -116,6 +116,37 @@ func (s *gridScreen) StyledLine(x, w, y int) Line {
 		// For this run, check if we can represent it as a single repeat or simple text
 		// We have text[start:start+width] and cellText[start:start+width]
 
+		// A wide character cut by an edge of the requested range cannot be
+		// shown in part: its cells inside the range are reported as blanks.
+		if s.cellCont[y][start] && start == x {
+			pad := 0
+			for start+pad < x+w && pad < width && s.cellCont[y][start+pad] {
+				pad++
+			}
+			spans = append(spans, Span{Style: style, Rune: ' ', Width: pad})
+			start += pad
+			width -= pad
+			if width == 0 {
+				continue
+			}
+		}
+		cutTail := 0
+		if end := start + width; end == x+w && end < len(styles) && s.cellCont[y][end] {
+			// the last character of the run continues beyond the range
+			for cutTail < width && s.cellCont[y][end-1-cutTail] {
+				cutTail++
+			}
+			cutTail++ // its head cell
+			if cutTail > width {
+				cutTail = width
+			}
+			width -= cutTail
+		}
+		if width == 0 {
+			spans = append(spans, Span{Style: style, Rune: ' ', Width: cutTail})
+			continue
+		}
+
 		// Optimization: check if all runes are same and simple (width 1)
 		firstRune := text[start]
 		isRepeat := true
@@ -147,6 +178,9 @@ func (s *gridScreen) StyledLine(x, w, y int) Line {
 			}
 
 			spans = append(spans, Span{Style: style, Text: sb.String(), Width: spanWidth})
+		}
+		if cutTail > 0 {
+			spans = append(spans, Span{Style: style, Rune: ' ', Width: cutTail})
 		}
 	}
 	return Line{
